@@ -759,7 +759,7 @@ def r7(cx):
                     if u in loop and v not in loop:
                         exit_edge = (u, v)
                         break
-                how = _describe_edge(F, body, du, *exit_edge) if exit_edge else 'a path'
+                how = _describe_edge(F, body, du, *exit_edge) if exit_edge else 'the text is produced inside the read loop'
                 cx.violation(root, 'line-ended-without-newline',
                              'the reader can hand over a line although the byte just read is not the newline and the input has not ended (%s): '
                              'a physical line is then passed to the lexer in pieces, each converted from UTF-8 on its own, so a multi-byte '
